@@ -318,6 +318,13 @@ fn compress_literals(
     last_table: Option<&huff0_encoder::HuffmanTable>,
     writer: &mut BitWriter<&mut Vec<u8>>,
 ) -> Option<huff0_encoder::HuffmanTable> {
+    // A Huffman table needs at least two symbols with a non-zero weight. Literals that consist of a single
+    // repeated byte (possible when everything else in the block is covered by matches) are stored raw.
+    if literals.windows(2).all(|w| w[0] == w[1]) {
+        raw_literals(literals, writer);
+        return None;
+    }
+
     let reset_idx = writer.index();
 
     let new_encoder_table = huff0_encoder::HuffmanTable::build_from_data(literals);
